@@ -13,3 +13,14 @@ Theorem C16_prefix_wiring_refuted :
     ~ Wired S T mcf imp ls opt set re (solve_stages_prefix S T mcf imp ls opt set re).
 Proof. exact pipeline_wiring_prefix_refuted. Qed.
 Print Assumptions C16_prefix_wiring_refuted.
+
+(** the last stage changes no activity and aligns the end depots with the cycles it is given (functional model of
+    Schedule, for every reachable schedule) *)
+From RS Require Import Transition Schedule SchedInv SchedFrameStmts SchedFrameFacts.
+Theorem C16_alignment_changes_no_activity :
+  forall nw s s', reachable nw s -> reassign_end_depots_consistent nw s = Ok s' -> activities_same s s'.
+Proof. exact frame_consistent_reachable. Qed.
+Print Assumptions C16_alignment_changes_no_activity.
+Theorem C16_alignment_aligns : forall nw, stmt_consistent_aligns nw.
+Proof. exact consistent_aligns. Qed.
+Print Assumptions C16_alignment_aligns.
